@@ -160,7 +160,7 @@ def check_output(ds_rows, desc):
 
 
 def inputs(name):
-    I0 = [dict(a=1, b='x'), dict(a=2, b='y'), dict(a=2, b=None), dict(a=3, b='x')]
+    I0 = [dict(a=1, b='x', n=1), dict(a=2, b='y', n=1), dict(a=2, b=None, n=2), dict(a=3, b='x', n=5)]
     I1b = [dict(a=1, c=Decimal('1.5')), dict(a=3, c=Decimal('2')), dict(a=1, c=Decimal('4.5')), dict(a=2, c=Decimal('0.5'))]      # key 2 aggregates two source rows
     if name == 'I2':       # res_2's field a is a number here (res_1's is an integer)
         return [list(map(dict, I0)), [dict(a=Decimal('1.5'), c=Decimal('1.5')), dict(a=Decimal('3.25'), c=Decimal('2')), dict(a=Decimal('1'), c=Decimal('4.5'))]]
